@@ -305,8 +305,8 @@ def arr_spec(P, val, v, s, r, x, y):
 
 
 class FieldCase:
-    def __init__(self, T, ctor, p, k, mod=None, gen=None, full=True):
-        self.T, self.ctor, self.p, self.k, self.mod, self.gen, self.full = T, ctor, p, k, mod, gen, full
+    def __init__(self, T, ctor, p, k, mod=None, gen=None, full=True, vec=False):
+        self.T, self.ctor, self.p, self.k, self.mod, self.gen, self.full, self.vec = T, ctor, p, k, mod, gen, full, vec
         self.q = p ** k
         self.lines = []      # (kind, impl_line, model_line_or_None, meta)
 
@@ -397,8 +397,12 @@ def gen_ops(rng, fc, per, styles, tier):
             for x in (-1, -fc.p, -fc.p - 1, -rng.range(0, min(hi, 2**40)), -(hi if ty != "flt" else 2**24)):
                 L.append(("cvt", "cvt %s %d" % (ty, x), None, (ty, x)))
     L.append(("cvt", "cvt none 0", None, ("none", 0)))
-    for x in [0, 1, q - 1, q, q + 5, rng.range(0, q * fc.p), rng.range(0, q * q)]:
-        L.append(("cvt", "cvt vec %d" % x, None, ("vec", x)))
+    if fc.vec:
+        # init(Rep&, Vector) keeps function-local statics (prime field, modulus) from its FIRST call in the process
+        # (property C16); it is therefore exercised only in dedicated single-field processes.  The empty vector is
+        # not a polynomial Poly1PadicDom::eval accepts (it dereferences rbegin()).
+        for x in [1, 2, q - 1, q, q + 5, rng.range(1, q * fc.p), rng.range(1, q * q), rng.range(1, q * q)]:
+            L.append(("cvt", "cvt vec %d" % x, None, ("vec", x)))
 
 
 def main(tier, replay=None):
